@@ -122,3 +122,34 @@ def declare2(S: Spec):
                   ("I1", "GI1()")],
          modifies=OPS_MOD + ["self._suspend_ticks_left"],
          loops={0: dict(header="for op in self.operators[self._current_op_idx:]", **suffix_loop("PENDING"))})
+
+
+def declare3(S: Spec):
+    """Unconditional 'shape and frame' variants (no precondition): what these functions do to ANY arguments.
+    Used by proofs that do not want to carry operator well-formedness (e.g. the priority-pool queue-class proof)."""
+    MRS = "eudoxia.workload.runtime_status"
+    S.fn(f"{MRS}:PipelineRuntimeStatus.check_transition#pure", owners=["C16"],
+         params={"operator": Ref("Operator"), "new_state": OpState}, returns=Tuple(BOOL, Opt(STR)),
+         requires=[], ensures=[], raises={"Exception": []}, modifies=[],
+         loops={0: dict(idx="k", inv=[])})
+    S.fn(f"{MRS}:PipelineRuntimeStatus.transition#frame", owners=["C16"],
+         params={"operator": Ref("Operator"), "new_state": OpState},
+         requires=[], ensures=[], raises={"Exception": []},
+         modifies=["values(self.operator_states)", "values(self.state_counts)"],
+         variants={f"{MRS}:PipelineRuntimeStatus.check_transition": f"{MRS}:PipelineRuntimeStatus.check_transition#pure"})
+    S.fn(f"{MP}:Pipeline.runtime_status#any", returns=Ref("PipelineRuntimeStatus"),
+         requires=[], ensures=["result is not None"], raises={"Exception": []},
+         modifies=["self._runtime_status"], allocates=True,
+         note="assumed frame of the lazy creation: writes only self._runtime_status and the objects it creates")
+    S.fns[f"{MP}:Pipeline.runtime_status#any"].trusted = True
+    S.fn(f"{MA}:Assignment.__init__#shape", owners=["C16"],
+         params={"ops": List(Ref("Operator")), "cpu": REAL, "ram": REAL, "priority": Enum("Priority"), "pool_id": INT,
+                 "pipeline_id": STR, "container_id": Opt(STR), "is_resume": BOOL, "force_run": BOOL},
+         requires=[],
+         ensures=[("fields", "self.ops is ops and self.cpu == cpu and self.ram == ram and self.priority == priority and self.pool_id == pool_id")],
+         raises={"Exception": []},
+         modifies=["star('dv:Operator:OperatorState')", "star('dv:OperatorState:int')", "star('fld:Pipeline._runtime_status')"],
+         allocates=True,
+         variants={f"{MRS}:PipelineRuntimeStatus.transition": f"{MRS}:PipelineRuntimeStatus.transition#frame",
+                   f"{MP}:Pipeline.runtime_status": f"{MP}:Pipeline.runtime_status#any"},
+         loops={0: dict(idx="k", header="for op in ops", inv=[])})
